@@ -44,6 +44,13 @@ def run(ctx):
     violations, corr = [], []
     hist = {"kill_points": 0, "killed": 0, "during_send": 0, "during_files": 0, "unloadable": 0, "c_changed": 0}
     for ci, (case, (res, _)) in enumerate(zip(cases, results)):
+        # what two completed polls left on disk is what they published (otherwise the events of a
+        # completed cycle are published again after any later crash)
+        if isinstance(res["base_disk"], dict) and "error" not in res["base_disk"] \
+                and common.canon(res["base_disk"]) != common.canon(res["base_mem"]):
+            violations.append({"sig": None, "replay_kind": "crash_base", "case": common.enc(case),
+                               "what": "after a completed poll the cache files differ from the published state held in memory: "
+                                       f"disk {res['base_disk']} / memory {res['base_mem']}"})
         for ob in res["points"]:
             hist["kill_points"] += 1
             hist["killed"] += ob["killed"]
